@@ -58,6 +58,7 @@ func hookByName(n string) hookDef {
 }
 
 type driver struct {
+	state string // name of the state the following nodes belong to (copied into args)
 	log   *sim.Log
 	root  int
 	rng   *sim.Rng
@@ -112,8 +113,8 @@ func (d *driver) hookCases(w *world, stNode int, run string, h hookDef) {
 	for i, u := range dry.units {
 		shape[i] = shapeRec{I: u.Idx, Parent: u.Parent, N: u.N, Start: u.Start}
 	}
-	dryNode := d.log.Add(stNode, run, "Dry", map[string]interface{}{"hook": h.name},
-		map[string]interface{}{"returned": rr.Returned, "panicS": rr.PanicS},
+	dryNode := d.log.Add(stNode, run, "Dry", map[string]interface{}{"state": d.state, "hook": h.name},
+		map[string]interface{}{"returned": rr.Returned, "panicS": rr.PanicS, "panicK": panicKind(rr.PanicS)},
 		map[string]interface{}{"digest": rr.Digest, "digest2": rr2.Digest, "nunits": len(dry.units), "shape": shape})
 	d.stats["dry"]++
 	if !rr.Returned {
@@ -133,8 +134,8 @@ func (d *driver) hookCases(w *world, stNode int, run string, h hookDef) {
 		rv := tv.run(w.Ctx, hf, dg)
 		r := ref{dSkip: rs.Digest, dVoid: rv.Digest, retSkip: rs.Returned, retVoid: rv.Returned, afterSkip: ts.afterSame, afterVoid: tv.afterSame}
 		r.node = d.log.Add(dryNode, run, "Unit",
-			map[string]interface{}{"hook": h.name, "u": u.Idx, "label": u.Label, "depth": u.Depth},
-			map[string]interface{}{"retSkip": rs.Returned, "retVoid": rv.Returned, "panicS": rs.PanicS + rv.PanicS},
+			map[string]interface{}{"state": d.state, "hook": h.name, "u": u.Idx, "label": u.Label, "depth": u.Depth},
+			map[string]interface{}{"retSkip": rs.Returned, "retVoid": rv.Returned, "panicS": rs.PanicS + rv.PanicS, "panicK": panicKind(rs.PanicS + rv.PanicS)},
 			map[string]interface{}{"failed": u.Failed, "panicked": u.Panicked, "err": u.Err, "n": u.N, "own": u.Own,
 				"dDry": rr.Digest, "dSkip": rs.Digest, "dVoid": rv.Digest, "afterSkip": ts.afterSame, "afterVoid": tv.afterSame})
 		refs[u.Idx] = r
@@ -151,8 +152,8 @@ func (d *driver) hookCases(w *world, stNode int, run string, h hookDef) {
 			// "after" is counted relative to the target; when the victim is a nested unit the counts of the
 			// victim's own reference runs are not comparable, so the comparison uses the target's void run
 			d.log.Add(refs[u.Idx].node, run, "Fault",
-				map[string]interface{}{"hook": h.name, "u": u.Idx, "k": k, "label": u.Label},
-				map[string]interface{}{"returned": rf.Returned, "panicS": rf.PanicS, "fired": tf.fired, "victim": v},
+				map[string]interface{}{"state": d.state, "hook": h.name, "u": u.Idx, "k": k, "label": u.Label},
+				map[string]interface{}{"returned": rf.Returned, "panicS": rf.PanicS, "panicK": panicKind(rf.PanicS), "fired": tf.fired, "victim": v},
 				map[string]interface{}{"digest": rf.Digest, "dSkipV": refs[v].dSkip, "dVoidV": refs[v].dVoid,
 					"after": tf.afterSame, "afterVoid": refs[u.Idx].afterVoid})
 			d.stats["faults"]++
@@ -169,8 +170,8 @@ func (d *driver) blocks(w *world, stNode int, run string, dts []time.Duration, h
 			b.Height = heights[i] - 1
 		}
 		br := b.NextBlock(dt)
-		parent = d.log.Add(parent, run, "Block", map[string]interface{}{"n": i + 1, "dt": int64(dt / time.Second), "h": b.Height},
-			map[string]interface{}{"returned": !br.Panic, "panicS": short(br.Err)},
+		parent = d.log.Add(parent, run, "Block", map[string]interface{}{"state": d.state, "n": i + 1, "dt": int64(dt / time.Second), "h": b.Height},
+			map[string]interface{}{"returned": !br.Panic, "panicS": short(br.Err), "panicK": panicKind(short(br.Err))},
 			map[string]interface{}{"digest": b.Digest()})
 		d.stats["blocks"]++
 		if br.Panic {
@@ -230,6 +231,7 @@ func Main(args []string) int {
 				d.explore(w, sb.name, hooks)
 				continue
 			}
+			d.state = sb.name
 			stNode := d.log.Add(d.root, run, "State", map[string]interface{}{"name": sb.name, "notes": w.notes, "params": p},
 				nil, map[string]interface{}{"digest": w.Digest(), "h": w.Height})
 			d.stats["states"]++
